@@ -9,20 +9,20 @@ Open Scope Z_scope.
 
 (** the matches found in one sequence *)
 Lemma find_kmers_spec k p s :
-  p <> [] -> acgt p ->
+  (1 <= k)%nat -> p <> [] -> acgt p ->
   find_kmers (Z.of_nat k) p s =
     Ok (map (fun q => (Z.of_nat q, false)) (filter (fwd_ok (haystack s) p k) (seq 0 (S (length s)))) ++
         map (fun loc => (Z.of_nat loc + mv_len p - 1, true))
             (filter (rev_ok (haystack s) (spec_revcomp p) k) (seq 0 (S (length s))))).
 Proof.
-  intros Hne Hp. unfold find_kmers.
-  rewrite <- (haystack_length s) at 1 2.
+  intros Hk Hne Hp. unfold find_kmers.
+  rewrite <- (haystack_length s).
   rewrite fwd_loop_spec by assumption.
   rewrite revcomp_spec.
   assert (Hl : mv_len p = mv_len (spec_revcomp p)) by (unfold mv_len; now rewrite spec_revcomp_length).
   rewrite Hl.
   rewrite rev_loop_spec.
-  - rewrite haystack_length. reflexivity.
+  - reflexivity.
   - intros E. apply (f_equal (@length Z)) in E. rewrite spec_revcomp_length in E.
     destruct p; [congruence|discriminate].
 Qed.
@@ -44,10 +44,10 @@ Qed.
 
 (** one sequence: the model's index list has exactly the elements of the specification's list *)
 Lemma seq_indices_spec k p s :
-  bytes s -> p <> [] -> acgt p ->
+  (1 <= k)%nat -> bytes s -> p <> [] -> acgt p ->
   exists l, seq_indices (Z.of_nat k) p s = Ok l /\ forall v, In v l <-> In v (seq_kmers k p s).
 Proof.
-  intros Hs Hne Hp. unfold seq_indices. rewrite find_kmers_spec by assumption.
+  intros Hk Hs Hne Hp. unfold seq_indices. rewrite find_kmers_spec by assumption.
   assert (Hp1 : (1 <= length p)%nat) by (destruct p; [congruence|simpl; lia]).
   eexists. split.
   - apply kmer_indices_app.
@@ -59,12 +59,12 @@ Proof.
 Qed.
 
 Lemma all_indices_spec k p seqs :
-  Forall bytes seqs -> p <> [] -> acgt p ->
+  (1 <= k)%nat -> Forall bytes seqs -> p <> [] -> acgt p ->
   exists l, all_indices (Z.of_nat k) p seqs = Ok l /\ forall v, In v l <-> In v (all_kmers k p seqs).
 Proof.
-  intros Hs Hne Hp. induction Hs as [|s t Hs Ht IH].
+  intros Hk Hs Hne Hp. induction Hs as [|s t Hs Ht IH].
   - exists []. split; [reflexivity|]. simpl. tauto.
-  - destruct IH as [lt [Et Ht']]. destruct (seq_indices_spec k p s Hs Hne Hp) as [ls [Es Hs']].
+  - destruct IH as [lt [Et Ht']]. destruct (seq_indices_spec k p s Hk Hs Hne Hp) as [ls [Es Hs']].
     exists (ls ++ lt). split.
     + cbn [all_indices]. rewrite Es, Et. reflexivity.
     + intros v. unfold all_kmers. cbn [flat_map]. rewrite !in_app_iff, Hs', Ht'. reflexivity.
@@ -90,7 +90,7 @@ Theorem C01_signature_l dense k p seqs :
   calc_signature dense (Z.of_nat k) p seqs = Ok (signature_spec k p seqs, dtype_spec k).
 Proof.
   intros Hk Hne Hp Hs. unfold calc_signature.
-  destruct (all_indices_spec k p seqs Hs Hne Hp) as [l [El Hl]]. rewrite El.
+  destruct (all_indices_spec k p seqs Hk Hs Hne Hp) as [l [El Hl]]. rewrite El.
   rewrite index_dtype_spec by assumption.
   assert (Hsd : sort_dedup l = signature_spec k p seqs) by (apply sort_dedup_ext; exact Hl).
   destruct dense.
@@ -106,7 +106,7 @@ Theorem C01_sorted_l k p seqs :
 Proof.
   unfold signature_spec. split; [apply sort_dedup_sorted|]. split.
   - intros v. apply sort_dedup_In.
-  - intros v Hv. apply sort_dedup_In in Hv. eapply all_kmers_range; eauto.
+  - intros v Hv. apply (proj1 (sort_dedup_In _ _)) in Hv. exact (all_kmers_range k p seqs v Hv).
 Qed.
 
 (** membership in the specification set, spelled out: v is the index of the k bytes following an
@@ -140,3 +140,10 @@ Proof.
       now apply In_opt_list. }
     destruct Ht as [->| ->]; [now left|now right].
 Qed.
+
+(** non-vacuity *)
+Example C01_ex :
+  calc_signature false 2 [65; 84] [[65; 84; 71; 67; 110; 65; 116; 99; 99]; [71; 67; 65; 84]] =
+    Ok ([5; 9], Some 1)
+  /\ signature_spec 2 [65; 84] [[65; 84; 71; 67; 110; 65; 116; 99; 99]; [71; 67; 65; 84]] = [5; 9].
+Proof. vm_compute. split; reflexivity. Qed.
